@@ -55,16 +55,16 @@ func runC09(c *Ctx) {
 // modify state visible to the caller nor return a different answer when
 // called again with the same arguments on unchanged state.  One reason each.
 var c09IdempotentReads = map[string]string{
-	"~/internal/manifestutil.Subject":     "fetches and decodes the manifest named by its descriptor argument; content-addressed, no state",
-	"~/internal/manifestutil.Config":      "as Subject",
-	"~/internal/manifestutil.Manifests":   "as Subject",
-	"(*~/internal/graph.Memory).Exists":   "map lookup under RLock",
-	"(*~/internal/resolver.Memory).Map":   "clone under RLock",
-	"(*~/internal/resolver.Memory).TagSet": "clone under RLock",
-	"~/internal/descriptor.IsManifest":    "pure predicate on the media type",
-	"~/internal/descriptor.FromOCI":       "pure projection",
-	"~/internal/descriptor.Plain":         "pure projection",
-	"~/content.Equal":                     "pure comparison",
+	"~/internal/manifestutil.Subject":            "fetches and decodes the manifest named by its descriptor argument; content-addressed, no state",
+	"~/internal/manifestutil.Config":             "as Subject",
+	"~/internal/manifestutil.Manifests":          "as Subject",
+	"(*~/internal/graph.Memory).Exists":          "map lookup under RLock",
+	"(*~/internal/resolver.Memory).Map":          "clone under RLock",
+	"(*~/internal/resolver.Memory).TagSet":       "clone under RLock",
+	"~/internal/descriptor.IsManifest":           "pure predicate on the media type",
+	"~/internal/descriptor.FromOCI":              "pure projection",
+	"~/internal/descriptor.Plain":                "pure projection",
+	"~/content.Equal":                            "pure comparison",
 	"(~/internal/container/set.Set[T]).Contains": "map lookup",
 }
 
@@ -609,8 +609,6 @@ func c09FirstWrite(fn *ssa.Function) string {
 	return out
 }
 
-
-
 // =====================================================================
 // R2: resolver.Memory keeps tags (digest -> refs) the inverse of index
 // =====================================================================
@@ -790,6 +788,9 @@ func c09SameKey(a, b ssa.Value) bool {
 	if a == b {
 		return true
 	}
+	if c09CellSource(a) != nil && c09CellSource(a) == c09CellSource(b) {
+		return true
+	}
 	ra, rb := Roots(a), Roots(b)
 	if len(ra) == 0 || len(ra) != len(rb) {
 		return false
@@ -804,6 +805,26 @@ func c09SameKey(a, b ssa.Value) bool {
 		}
 	}
 	return true
+}
+
+// c09CellSource: v is (a load of) a struct-typed local cell that is written
+// exactly once — returns the stored value (Roots does not look through struct
+// cells, so `target` and a later `target` of an address-taken parameter would
+// otherwise look different).
+func c09CellSource(v ssa.Value) ssa.Value {
+	u, ok := v.(*ssa.UnOp)
+	if !ok || u.Op != token.MUL {
+		return v
+	}
+	a, ok := u.X.(*ssa.Alloc)
+	if !ok {
+		return nil
+	}
+	st := storesTo(a)
+	if len(st) != 1 || len(closureWriters(a)) > 0 {
+		return nil
+	}
+	return st[0].Val
 }
 
 // c09PathThrough: there is a path entry -> K -> some Return that avoids the cut.
@@ -993,8 +1014,31 @@ func c09R2Kill(c *Ctx, R2 string, f *ssa.Function, mem *types.Named, K ssa.Instr
 	})
 	// (a) the stale inverse entry is removed
 	k1 := fmt.Sprintf("%s|%s:stale-inverse-removed", fname, what)
+	// delegation: a helper of the package that receives k and deletes index[k] (its own kill is checked
+	// by this rule) runs before this kill on every path: there is no old entry left to unlink
+	var helpers []string
+	var delegated []ssa.Instruction
+	for _, call := range Calls(f, func(string) bool { return true }) {
+		g := StaticCallee(call)
+		if g == nil || g == f || fnPkgPath(g) != fnPkgPath(f) || len(g.Blocks) == 0 {
+			continue
+		}
+		for i, a := range call.Common().Args {
+			if i < len(g.Params) && c09SameKey(a, key) {
+				helpers = append(helpers, FnName(g))
+				if c09DeletesIndexOfParam(g, mem, g.Params[i]) {
+					delegated = append(delegated, call.(ssa.Instruction))
+				}
+			}
+		}
+	}
+	noLookup := len(lookups) == 0 || !MustPass(K, newCut().Instr(c09LookupInstrs(lookups)...))
 	switch {
-	case len(lookups) == 0 || !MustPass(K, newCut().Instr(c09LookupInstrs(lookups)...)):
+	case noLookup && len(delegated) > 0 && MustPass(K, newCut().Instr(delegated...)):
+		c.OK(R2, k1, K.Pos(), "a helper that deletes index[k] (and is itself checked) runs before this kill on every path: no old entry remains")
+	case (noLookup || len(dels) == 0) && len(helpers) > 0:
+		c.Undecided(R2, k1, K.Pos(), "index[k] is killed here and k is passed to "+strings.Join(helpers, ", ")+": the rule cannot tell whether that helper unlinks k from tags[old.Digest] (shape not recognised)")
+	case noLookup:
 		c.Violation(R2, k1, K.Pos(), "index[k] is "+ifelse(newVal != nil, "overwritten", "deleted")+" without first looking up the entry it replaces: when k pointed at another digest, k stays in tags[old.Digest], "+
 			"so TagSet(old)/isTagged(old) keep reporting a tag that no longer exists (auto-GC then spares a node that lost its last tag)")
 	case len(dels) == 0:
@@ -1019,6 +1063,39 @@ func c09R2Kill(c *Ctx, R2 string, f *ssa.Function, mem *types.Named, K ssa.Instr
 			c.Check(R2, k2, K.Pos(), !bad, ifelse(!bad, "every path through index[k] = v adds k to tags[v.Digest]", "a path through index[k] = v returns without adding k to tags[v.Digest]"))
 		}
 	}
+}
+
+// c09DeletesIndexOfParam: every path through g deletes index[p] or finds it absent.
+func c09DeletesIndexOfParam(g *ssa.Function, mem *types.Named, p *ssa.Parameter) bool {
+	ct := newCut()
+	n := 0
+	AllInstrs(g, func(in ssa.Instruction) {
+		switch u := in.(type) {
+		case *ssa.Call:
+			if CalleeName(u) == "builtin:delete" && c09IsLoadOfField(u.Call.Args[0], mem, "index") && c09SameKey(u.Call.Args[1], p) {
+				ct.Instr(u)
+				n++
+			}
+		case *ssa.Lookup:
+			if u.CommaOk && c09IsLoadOfField(u.X, mem, "index") && c09SameKey(u.Index, p) {
+				for _, r := range *u.Referrers() {
+					if e, ok := r.(*ssa.Extract); ok && e.Index == 1 {
+						_, fe := BoolTests(g, Aliases(e))
+						ct.Edges(fe...)
+					}
+				}
+			}
+		}
+	})
+	if n == 0 {
+		return false
+	}
+	for _, r := range Returns(g) {
+		if !MustPass(r, ct) {
+			return false
+		}
+	}
+	return true
 }
 
 func c09LookupInstrs(ls []*ssa.Lookup) []ssa.Instruction {
